@@ -98,9 +98,65 @@ func (c *Ctx) derivedPeriods() {
 			fields = append(fields, f)
 		}
 		sort.Strings(fields)
+		// the specification names the unexported fields as the pinned tree does; when they were
+		// renamed, the sub-indicator fields of the struct as it is now are taken instead and the
+		// periods are compared as a multiset (which field plays which part is then decided by the
+		// formula and admissibility rules, which resolve renamed fields themselves)
+		byName := true
+		for _, f := range fields {
+			if len(stored[f]) == 0 {
+				byName = false
+			}
+		}
+		if !byName {
+			stored = map[string][]ast.Expr{}
+			fields = nil
+			res := fi.Fn.Type().(*types.Signature).Results()
+			if res.Len() == 1 {
+				rt := res.At(0).Type()
+				if p, ok := rt.(*types.Pointer); ok {
+					rt = p.Elem()
+				}
+				if st, ok := rt.Underlying().(*types.Struct); ok {
+					for i := 0; i < st.NumFields(); i++ {
+						if _, isPtr := st.Field(i).Type().(*types.Pointer); isPtr {
+							fields = append(fields, st.Field(i).Name())
+						}
+					}
+				}
+			}
+			want := map[string]bool{}
+			for _, f := range fields {
+				want[f] = true
+			}
+			ast.Inspect(fi.Decl.Body, func(nd ast.Node) bool {
+				switch x := nd.(type) {
+				case *ast.KeyValueExpr:
+					if k, ok := x.Key.(*ast.Ident); ok && want[k.Name] {
+						stored[k.Name] = append(stored[k.Name], x.Value)
+					}
+				case *ast.AssignStmt:
+					for i, l := range x.Lhs {
+						if sel, ok := l.(*ast.SelectorExpr); ok && i < len(x.Rhs) && want[sel.Sel.Name] {
+							stored[sel.Sel.Name] = append(stored[sel.Sel.Name], x.Rhs[i])
+						}
+					}
+				}
+				return true
+			})
+			sort.Strings(fields)
+		}
+		var gotAll, wantAll []string
+		for _, v := range spec {
+			wantAll = append(wantAll, v)
+		}
+		sort.Strings(wantAll)
 		for _, f := range fields {
 			n++
 			site := name + "/" + f
+			if !byName {
+				site = name + "/sub-indicators"
+			}
 			why := ""
 			vals := stored[f]
 			if len(vals) != 1 {
@@ -125,7 +181,8 @@ func (c *Ctx) derivedPeriods() {
 						why = "the period of field " + f + " is not a single expression of the parameters (undecided, fails closed)"
 					} else {
 						got = sym.CanonString(sym.Subst(m.Paths[0].Ret[0], ren))
-						if got != spec[f] {
+						gotAll = append(gotAll, got)
+						if byName && got != spec[f] {
 							why = fmt.Sprintf("the sub-indicator in field %s is built with period %s, the documented formula needs %s", f, got, spec[f])
 						}
 					}
@@ -135,6 +192,14 @@ func (c *Ctx) derivedPeriods() {
 			run.Sample(map[string]string{"obligation": site + " period", "derived": got, "specified": spec[f]})
 			if why != "" {
 				c.violate("formula/derived-period", site, short(got, 60), fi.Decl.Pos(), why+": every value of the indicator is computed over the wrong window for the periods where the two differ")
+			}
+		}
+		if !byName {
+			sort.Strings(gotAll)
+			good := strings.Join(gotAll, " | ") == strings.Join(wantAll, " | ")
+			run.Oblige(good)
+			if !good {
+				c.violate("formula/derived-period", name+"/sub-indicators", short(strings.Join(gotAll, " | "), 80), fi.Decl.Pos(), fmt.Sprintf("the sub-indicators are built with the periods {%s}, the documented formula needs {%s}: every value of the indicator is computed over the wrong window for the periods where they differ", strings.Join(gotAll, " | "), strings.Join(wantAll, " | ")))
 			}
 		}
 	}
